@@ -1,14 +1,32 @@
-use falcon_rust::falcon512;
+#[path = "../util.rs"]
+#[allow(dead_code)]
+mod util;
+use falcon_rust::{falcon512, falcon1024, verif_hooks};
 fn main() {
-    let mut seed = [0u8; 32];
-    seed[4] = 0x80;
-    let (sk, _pk) = falcon512::keygen(seed);
-    let b = sk.verif_basis();
-    let sk2 = falcon512::SecretKey::from_bytes(&sk.to_bytes()).unwrap();
-    let b2 = sk2.verif_basis();
-    for k in 0..4 {
-        let diff: Vec<(usize, i16, i16)> = (0..512).filter(|&i| b[k][i] != b2[k][i]).map(|i| (i, b[k][i], b2[k][i])).collect();
-        println!("poly {} max {} diffs {} {:?}", k, b[k].iter().map(|x| x.abs()).max().unwrap(), diff.len(), &diff[..diff.len().min(5)]);
+    let seed = [7u8; 32];
+    let (sk, pk) = falcon512::keygen(seed);
+    let (sk2, pk2) = falcon1024::keygen(seed);
+    for (p, bl) in [(2500u32, 200_000usize), (3000, 200_000), (3500, 200_000), (4000, 200_000), (6000, 8_000), (6000, 16_000), (10000, 8000), (10000, 16000), (20000, 4000), (20000, 8000), (40000, 4000)] {
+        let (mut nr, mut cr, mut bytes) = (0, 0, 0usize);
+        let (mut nr2, mut cr2) = (0, 0);
+        let t = std::time::Instant::now();
+        for i in 0..200u64 {
+            let rng = util::BiasedRng::new(i * 977 + p as u64, p, bl);
+            let msg = i.to_le_bytes();
+            let sig = verif_hooks::with_sign_rng(Box::new(rng), || falcon512::sign(&msg, &sk));
+            let (a, b) = verif_hooks::take_sign_counters();
+            nr += a; cr += b;
+            assert!(falcon512::verify(&msg, &sig, &pk));
+            bytes += sig.to_bytes().len();
+            if i < 60 {
+                let rng = util::BiasedRng::new(i * 977 + p as u64, p, 2 * bl);
+                let sig = verif_hooks::with_sign_rng(Box::new(rng), || falcon1024::sign(&msg, &sk2));
+                let (a, b) = verif_hooks::take_sign_counters();
+                nr2 += a; cr2 += b;
+                assert!(falcon1024::verify(&msg, &sig, &pk2));
+            }
+        }
+        println!("bl={} p={}/65536: 512: norm retries {} compress retries {} per 200 | 1024: {} {} per 60 | {:?}", bl, p, nr, cr, nr2, cr2, t.elapsed());
+        let _ = bytes;
     }
-    println!("eq: {}", sk == sk2);
 }
